@@ -27,7 +27,8 @@ EXPLANATION = (
     'overwritten in that map on every path, and only ChangeField mutations '
     'are ever registered there; the model handed to each op handler in '
     'generate_table_op_sql is a fresh mutator.create_model(); '
-    'R-C03.7 mutation membership tests in the optimiser are identity-based (set/dict), see R-C01.7; R-C03.8 no declared initial value is used as a truth value anywhere in mutations/, mutators/ and db/ (0, "", False are initial values; only None means absent).')
+    'R-C03.7 mutation membership tests in the optimiser are identity-based (set/dict), see R-C01.7; R-C03.8 no declared initial value is used as a truth value anywhere in mutations/, mutators/ and db/ (0, "", False are initial values; only None means absent); '
+    'R-C03.9 / R-C03.10 are R-C01.8 / R-C01.9: both are ways in which merging operations into one rebuild gives a different schema than applying them one at a time.')
 NOT_DECIDED = (
     'Equivalence of the optimised run and the one-at-a-time run (signature, '
     'schema, rows) for all sequences: needs execution of both.')
@@ -688,7 +689,14 @@ def r8_initial_sentinel(ctx, rule_id='R-C03.8'):
            % n_reads)
 
 
+def r9_merged_index_state(ctx):
+    from .c01 import r8_index_state_reaches_rebuild, r9_deleted_filter_scope
+    r8_index_state_reaches_rebuild(ctx, rule_id='R-C03.9')
+    r9_deleted_filter_scope(ctx, rule_id='R-C03.10')
+
+
 def run(ctx):
+    r9_merged_index_state(ctx)
     r8_initial_sentinel(ctx)
     r7_identity_membership(ctx)
     r6_consumed_entries_invalidated(ctx)
